@@ -141,6 +141,7 @@ def run_case(case: dict, env: core.Env) -> None:
     conns, curs = _fresh(fs)
     curs[0][0].execute("CREATE OR REPLACE TABLE VT (X VARCHAR)")
     model: list[dict] = [{}, {}]
+    last_use: list[dict] = [{}, {}]
     compared = 0
     max_defined = 0
 
@@ -182,6 +183,14 @@ def run_case(case: dict, env: core.Env) -> None:
             model[ci].pop(name.upper(), None)
             if wedge_probe(ci, ki, "unset", "-"):
                 return
+            # the very statement text that worked while the variable was defined must now be refused
+            again = last_use[ci].pop(name.upper(), None)
+            if again is not None and defined:
+                calls0 = tap.CALLS
+                o2 = core.run_stmt(curs[ci][1 - ki], again[0])
+                env.count("cmp_undefined")
+                env.count("cmp_same_text_after_unset")
+                _check_undefined(env, o2, again[1], tap.CALLS - calls0, "same-text-as-before-unset")
         elif kind == "use":
             name, pos = step[3], step[4]
             sql, expf = _use_sql(name, pos)
@@ -228,6 +237,7 @@ def run_case(case: dict, env: core.Env) -> None:
             if got != exp or [type(a) for a in got[0]] != [type(a) for a in exp[0]]:
                 env.witness(f"C15/use/wrong-value/{vcls}/{pos}/{pf}", f"{sql} -> {got} expected {exp}; vars={model[ci]}")
                 return
+            last_use[ci][name.upper()] = (sql, name)
             # the other connection must not see it unless it defined the same name itself
             oc = 1 - ci
             if name.upper() not in model[oc]:
